@@ -1,6 +1,7 @@
 import GixModel.Model.C27Core
 import GixModel.Spec.C27
 import GixModel.Spec.C27Value
+import GixModel.Lemmas.C27Total
 /-
 C27 — driver. The model proper is `Model/C27Core.lean` (gitoxide's side) and `Spec/C27.lean`
 (git's side); this file only defines the line protocol over both, so that the harness can tie the
@@ -44,7 +45,13 @@ def handle? : List String → Option String
     | some o => some s!"ok {hexOfBytes o}"
   | ["plain", x] => do
     let v ← bytesOfHex x
-    some (if plainText v then "true" else "false")
+    some (if plainText v || plainTextCrlf v then "true" else "false")
+  | ["plaindec", x] => do
+    let v ← bytesOfHex x
+    some (if plainDecimal v then "true" else "false")
+  | ["booldev", x] => do
+    let v ← bytesOfHex x
+    some (if boolDeviates v then "true" else "false")
   | ["gitbool", x] => do
     let v ← bytesOfHex x
     some (showOptBool (gitBool v))
